@@ -25,6 +25,7 @@ pub mod c19;
 pub mod c20;
 pub mod common;
 pub mod start_e2;
+pub mod timed;
 
 pub fn all() -> Vec<PropSpec> {
     vec![c01::spec(), c02::spec(), c03::spec(), c04::spec(), c05::spec(), c06::spec(), c07::spec(), c08::spec(), c09::spec(), c10::spec(), c11::spec(), c12::spec(), c13::spec(), c14::spec(), c15::spec(), c16::spec(), c17::spec(), c18::spec(), c19::spec(), c20::spec()]
